@@ -46,7 +46,7 @@ THEOREMS["C16"] = [("Flurry.Props.C16", [
 THEOREMS["C17"] = [("Flurry.Props.C17", [
     "Flurry.C17.inserting_needs_send_sync", "Flurry.C17.lookup_unbounded", "Flurry.C17.binentry_conditional"])]
 
-THEOREMS["C01"] = [("Flurry.Props.C10", ["Flurry.C10.fill_then_forward_then_retire"]), ("Flurry.Props.C13", ["Flurry.C13.wrappers_delegate_by_name"]), ("Flurry.Props.C01Bin", ["Flurry.Proto.Bin.bin_linearizable", "Flurry.Proto.Bin.bin_linearizable_quiescent", "Flurry.Proto.Bin.bin_linearizable_writers", "Flurry.Proto.Bin.writers_mutex", "Flurry.Proto.Bin.writerStore_spec", "Flurry.Proto.Bin.reachable_inv"]), ("Flurry.Props.C01BinW", ["Flurry.Proto.BinW.binw_linearizable", "Flurry.Proto.BinW.binw_linearizable_quiescent", "Flurry.Proto.BinW.storeAt_eq_writerStore_reachable", "Flurry.Proto.BinW.walkers_mutex", "Flurry.Proto.BinW.binw_simulated"]), ("Flurry.Props.C01BinT", ["Flurry.Proto.BinT.bint_linearizable_quiescent", "Flurry.Proto.BinT.bint_linearizable", "Flurry.Proto.BinT.bint_linearizable_writers", "Flurry.Proto.BinT.bint_inv", "Flurry.Proto.BinT.bint_not_linearizable", "Flurry.Proto.BinT.not_bint_linearizable_quiescent"]), ("Flurry.Lemmas.BinWExamples", ["Flurry.Proto.BinW.noCheck_not_linearizable_doubleRemove", "Flurry.Proto.BinW.noCheck_not_linearizable_lostInsert", "Flurry.Proto.BinW.noCheck_refutes"]), ("Flurry.Props.C01", [
+THEOREMS["C01"] = [("Flurry.Props.C10", ["Flurry.C10.fill_then_forward_then_retire"]), ("Flurry.Props.C13", ["Flurry.C13.wrappers_delegate_by_name"]), ("Flurry.Props.C01Bin", ["Flurry.Proto.Bin.bin_linearizable", "Flurry.Proto.Bin.bin_linearizable_quiescent", "Flurry.Proto.Bin.bin_linearizable_writers", "Flurry.Proto.Bin.writers_mutex", "Flurry.Proto.Bin.writerStore_spec", "Flurry.Proto.Bin.reachable_inv"]), ("Flurry.Props.C01BinW", ["Flurry.Proto.BinW.binw_linearizable", "Flurry.Proto.BinW.binw_linearizable_quiescent", "Flurry.Proto.BinW.storeAt_eq_writerStore_reachable", "Flurry.Proto.BinW.walkers_mutex", "Flurry.Proto.BinW.binw_simulated"]), ("Flurry.Props.C01BinT", ["Flurry.Proto.BinT.bint_linearizable_quiescent", "Flurry.Proto.BinT.bint_linearizable", "Flurry.Proto.BinT.bint_linearizable_writers", "Flurry.Proto.BinT.bint_inv", "Flurry.Proto.BinT.remove_locks_before_unlink", "Flurry.Proto.BinT.insert_prepends_then_links_then_locks", "Flurry.Proto.BinT.bint_not_linearizable", "Flurry.Proto.BinT.not_bint_linearizable_quiescent"]), ("Flurry.Lemmas.BinWExamples", ["Flurry.Proto.BinW.noCheck_not_linearizable_doubleRemove", "Flurry.Proto.BinW.noCheck_not_linearizable_lostInsert", "Flurry.Proto.BinW.noCheck_refutes"]), ("Flurry.Props.C01", [
     "Flurry.C01.certificate_sound", "Flurry.C01.decision_correct", "Flurry.C01.not_linearizable_iff",
     "Flurry.C01.linearization_points", "Flurry.C01.no_resurrection", "Flurry.C01.reads_pure",
     "Flurry.C01.insert_then_read", "Flurry.C01.remove_then_read", "Flurry.C01.final_read"])]
